@@ -1029,9 +1029,13 @@ def r18_5(cx):
         'automaton::Automaton::try_stream_replace_all': 1,  # documented table-length assertion
     }
     total = 0
-    for p, b in sorted(cx.facts.bodies.items()):
+    from acverif.inline import vocab
+    for p, b0 in sorted(cx.facts.bodies.items()):
         if not re.search(STREAM_FNS, p) or p.startswith('ahocorasick::AhoCorasick::stream_find_iter'):
             continue
+        if p not in vocab() and b0.j.get('kind') != 'Closure':
+            continue        # a helper introduced by a refactoring: its sites are counted where it is spliced in
+        b = cx.body(p)
         sites = []
         for bi, t in b.calls(PANIC_CALLS):
             if t['loc'][2] and 'debug_assert' in '':
